@@ -80,8 +80,26 @@ def parseVal (w : String) : Option (Int × Int) :=
   | [a, b] => do some ((← a.toInt?), (← b.toInt?))
   | _ => none
 
+/-- `ver <hdrOk> <skidEmpty> <ia> <boundIA> <engineNil> <notifyOk> (e | <n> <bit>*)` -/
+def ver : List String → Option String
+  | h :: s :: ia :: b :: en :: no :: ws => do
+    let hdrOk ← parseBool h
+    let skidEmpty ← parseBool s
+    let ia ← ia.toNat?
+    let boundIA ← b.toNat?
+    let engineNil ← parseBool en
+    let notifyOk ← parseBool no
+    let chains ← match ws with
+      | ["e"] => some none
+      | ws => match takeCounted parseBool ws with
+        | some (l, []) => some (some l)
+        | _ => none
+    some (if verifyMsg { hdrOk, skidEmpty, ia, boundIA, engineNil, notifyOk, chains } then "ok" else "rej")
+  | _ => none
+
 def handle : List String → String
   | "gen" :: ws => (gen ws).getD "bad-op"
+  | "ver" :: ws => (ver ws).getD "bad-op"
   | ["sign", e, n] =>
     match e.toInt?, n.toInt? with
     | some e, some n => if signOk e n then "ok" else "expired"
